@@ -1,7 +1,8 @@
 (* Extraction of the adapter models (area "adapt": C15, C12) to OCaml.
    Only ExtrOcamlBasic is used; Z / N / positive / nat / byte stay the extracted inductive types. *)
 From Coq Require Import Extraction ExtrOcamlBasic ZArith NArith List.
-From MS Require Import Base.Bytes Base.Outcome Base.Cursor Base.Adapters Base.Async.
+From MS Require Import Base.Bytes Base.Outcome Base.Cursor Base.Adapters Base.Async Base.AsyncSan Mp4.San Gen.Consts.
+From MS Require Base.Prog.
 Extraction Language OCaml.
 Set Extraction KeepSingleton.
 
@@ -14,4 +15,5 @@ Extraction "model.ml"
   Adapters.std_buf Adapters.fut_buf Adapters.buf_init Adapters.fwd Adapters.async_input Adapters.fut_view
   Adapters.chunk_data Adapters.vcursor_seeker Adapters.seekable_reader
   Async.pending_seeker Async.pending_reader Async.aseek_adapter Async.afut_buf Async.afwd
-  Async.drive_all Async.astep Async.run_sched Async.run_sync Async.len_sched_ok.
+  Async.drive_all Async.astep Async.run_sched Async.run_sync Async.len_sched_ok
+  AsyncSan.run_san_sched AsyncSan.run_san_sync San.sanitize_prog Consts.BOXHEADER_MAX_SIZE Consts.DEFAULT_MAX_METADATA_SIZE.
